@@ -59,7 +59,9 @@ def cases(tier, seed):
                     yield dict(kind='wires', env=env, f=f, wires=wires, name='S%d|%s|%s|%s' % (si, order, flips, tags))
     # arc + helix + wire, explicit / sparse tags, all listing orders are equivalent on the command line (kinds are separate options)
     f = 14.2          # fixed geometry in metres: fixed frequency (segments stay short whatever the seed)
-    for tags in ((1, 2, 3), (3, 1, 2), (2, 3, 1), (5, 9, 2), None):
+    # tagged and untagged objects mixed (untagged ones are numbered after the largest explicit tag; on the command line
+    # arcs are read before helices before wires)
+    for tags in ((1, 2, 3), (3, 1, 2), (2, 3, 1), (5, 9, 2), None, (None, None, 1), (None, 2, 1), (None, 1, None), (4, None, 1)):
         for wflip in (0, 1):
             arc = dict(kind='arc', n=4, radius=0.5, ang1=0., ang2=90., r=1e-3)
             hx = dict(kind='helix', n=6, length=0.6, turnlen=0.3, r=1e-3, radii=[0.1, 0.1])
@@ -68,8 +70,17 @@ def cases(tier, seed):
             objs = [arc, hx, w]
             if tags is not None:
                 for o, t in zip(objs, tags):
-                    o['tag'] = t
-            yield dict(kind='mixed', env='free', f=f, wires=objs, transforms=[['translate', 1.0, [3., 0., 0.], (tags[1] if tags else 2)]] ,
+                    if t is not None:
+                        o['tag'] = t
+            # the helix is moved aside by its tag: explicit, or the automatic one it gets (after the largest explicit tag,
+            # arcs being numbered before helices)
+            if tags is None:
+                htag = 2
+            elif tags[1] is not None:
+                htag = tags[1]
+            else:
+                htag = max(t for t in tags if t is not None) + (2 if tags[0] is None else 1)
+            yield dict(kind='mixed', env='free', f=f, wires=objs, transforms=[['translate', 1.0, [3., 0., 0.], htag]] ,
                        name='M|%s|%d' % (tags, wflip))
 
 
@@ -93,8 +104,8 @@ def evaluate(c):
         return dict(viol=[('REJECTED', diag)])
     blocks = report.parse_geometry(out)
     tags = [b['tag'] for b in blocks]
-    if tags != sorted(tags):
-        viol.append(('BLOCK-ORDER', 'geometry blocks not in tag order: %s' % tags))
+    if tags != sorted(tags) or len(set(tags)) != len(tags):
+        viol.append(('BLOCK-ORDER', 'geometry blocks not in ascending order of distinct tags: %s' % tags))
     nums = [r[6] for b in blocks for r in b['rows']]
     N = len(nums)
     if nums != list(range(1, N + 1)):
